@@ -7,8 +7,11 @@
     frames_restored frames_restored_binds choice_stack_restored choose_restores_choice_stack
     outer_variables_kept lookup_after_eq_before render_restores_context
     fuel_irrelevant_impl fuel_irrelevant_doc impl_eq_doc_partial
+    if_false_removes if_true_transparent for_eq_unrolled choose_first_match_only
+    attr_form_eq_elem_form_partial replace_eq_content_strip_partial
 -/
 import Genshi.Lemmas.TmplSimMain
+import Genshi.Lemmas.TmplEquiv
 namespace Genshi.Props.C04
 open Genshi Genshi.Tmpl
 
@@ -144,6 +147,144 @@ theorem impl_eq_doc_partial (ns : List TNode) (data : Env) (n : Nat) (o : List E
   simp only [taskOf] at hm
   simp [hm, bind, Except.bind, pure, Except.pure]
 
+/-! ### the documented equivalences, on the implementation model
+
+  `IOk t st o st'`: with enough fuel task `t` renders `o` from state `st` and ends in `st'`
+  (the answer is independent of the fuel: `fuel_irrelevant_impl`). -/
+
+/-- A false condition removes the element (and whatever else is on it). -/
+theorem if_false_removes (e : Expr) (ds : List Dir) (body : List CEv) (st : St) (v : Val)
+    (hv : eval st.look e = .ok v) (hf : v.truthy = false) :
+    IOk (.apply (.if_ e :: ds) body) st [] st :=
+  IOk.if_iff.2 ⟨v, hv, Or.inr ⟨hf, rfl, rfl⟩⟩
+
+/-- A true condition is transparent. -/
+theorem if_true_transparent (e : Expr) (ds : List Dir) (body : List CEv) (st st' : St) (v : Val)
+    (o : List Event) (hv : eval st.look e = .ok v) (ht : v.truthy = true) :
+    IOk (.apply (.if_ e :: ds) body) st o st' ↔ IOk (.apply ds body) st o st' := by
+  rw [IOk.if_iff]
+  constructor
+  · rintro ⟨w, hw, ⟨_, h⟩ | ⟨hf, _⟩⟩
+    · exact h
+    · rw [hv] at hw; cases hw; rw [ht] at hf; cases hf
+  · intro h; exact ⟨v, hv, Or.inl ⟨ht, h⟩⟩
+
+/-- A loop equals its unrolled body, one copy per item with the loop variable bound by `py:with`. -/
+theorem for_eq_unrolled (v : Name) (e : Expr) (ds : List Dir) (body : List CEv) (st st' : St)
+    (o : List Event) (it : Val) (items : List Val)
+    (he : eval st.look e = .ok it) (hi : iterItems it = .ok items) :
+    IOk (.apply (.for_ v e :: ds) body) st o st' ↔ IOk (.flat (unroll v items ds body)) st o st' := by
+  rw [IOk.for_iff, ← loop_eq_unrolled]
+  constructor
+  · rintro ⟨it', items', h1, h2, h3⟩
+    rw [he] at h1; cases h1; rw [hi] at h2; cases h2; exact h3
+  · intro h; exact ⟨it, items, he, hi, h⟩
+
+/-- Of the branches of a choose only the first matching `py:when` is rendered: the earlier ones
+    (tests false) and all later ones (tests not even evaluated) contribute nothing. -/
+theorem choose_first_match_only (pre post : List Branch) (b : Branch) (st st' : St) (o : List Event)
+    (c : Choice) (cs : List Choice) (hc : st.choice = c :: cs) (hm : c.matched = false)
+    (hpre : ∀ p ∈ pre, whenMatches st.look c p.1 = .ok false)
+    (hb : whenMatches st.look c b.1 = .ok true) :
+    IOk (.flat ((pre ++ b :: post).map branchEv)) st o st' ↔
+      IOk (.apply b.2.1 b.2.2) (st.setMatched c cs true) o st' := by
+  have hskip : IOk (.flat (pre.map branchEv)) st [] st := by
+    induction pre with
+    | nil => exact IOk.flat_nil _
+    | cons p pre ih =>
+      have h1 := branch_skip (b := p) hc hm (hpre p (List.mem_cons_self ..))
+      simpa using IOk.flat_cons h1 (ih (fun q hq => hpre q (List.mem_cons_of_mem _ hq)))
+  have hbranch : ∀ o1 s1, IOk (.ev (branchEv b)) st o1 s1 ↔
+      IOk (.apply b.2.1 b.2.2) (st.setMatched c cs true) o1 s1 := by
+    intro o1 s1
+    rw [branchEv, IOk.ev_sub_iff, IOk.when_iff]
+    constructor
+    · rintro ⟨c', cs', hc', hh⟩
+      rw [hc] at hc'; cases hc'
+      rcases hh with ⟨hm', _⟩ | ⟨_, m, hmm, ⟨_, h⟩ | ⟨rfl, _⟩⟩
+      · rw [hm] at hm'; cases hm'
+      · exact h
+      · rw [hb] at hmm; cases hmm
+    · intro h; exact ⟨c, cs, hc, Or.inr ⟨hm, true, hb, Or.inl ⟨rfl, h⟩⟩⟩
+  have hafter : ∀ o1 s1, IOk (.apply b.2.1 b.2.2) (st.setMatched c cs true) o1 s1 →
+      IOk (.flat (post.map branchEv)) s1 [] s1 := by
+    intro o1 s1 h
+    obtain ⟨k, hk⟩ := h
+    have hstep := (run_inv k _ _ _ _ hk).1
+    have hch : s1.choice = { c with matched := true } :: cs := by
+      rcases hstep with h3 | ⟨c', cs', h3, hm3, _⟩
+      · exact h3
+      · simp only [St.setMatched, List.cons.injEq] at h3
+        rw [← h3.1] at hm3; simp at hm3
+    exact branches_after_match post hch rfl
+  simp only [List.map_append, List.map_cons]
+  constructor
+  · intro h
+    obtain ⟨o1, s1, o2, h1, h2, rfl⟩ := IOk.flat_append_inv h
+    obtain ⟨rfl, rfl⟩ := IOk.unique h1 hskip
+    obtain ⟨o3, s3, o4, h3, h4, rfl⟩ := IOk.flat_cons_inv h2
+    have h5 := (hbranch _ _).1 h3
+    obtain ⟨rfl, rfl⟩ := IOk.unique h4 (hafter _ _ h5)
+    simpa using h5
+  · intro h
+    have := IOk.flat_append hskip (IOk.flat_cons ((hbranch _ _).2 h) (hafter _ _ h))
+    simpa using this
+
+/-
+  Full statement (kept visible): for *every* directive with an element form.
+  Proved for when / otherwise / for / if / choose / with in any number and order of nesting;
+  `py:def` is excluded: the macro it stores differs syntactically (same behaviour, different
+  state), so the statement needs an equivalence of states up to macro behaviour.  `py:replace`
+  in element form is `replace_eq_content_strip_partial` / `tail_after_replace`.
+-/
+/-- Attribute form = element form: directives written as nested directive elements in the
+    documented order around the element (which keeps `stay` as attributes) render exactly as
+    the same directives written as attributes of that element. -/
+theorem attr_form_eq_elem_form_partial (pre stay : List Dir) (tag : Name) (attrs : List (Name × Str))
+    (kids : List TNode) (hpre : ∀ d ∈ pre, d.ctl = true) (hs : StrictSorted (pre ++ stay))
+    (st st' : St) (o : List Event) :
+    IOk (.flat (compileNode (nestNodes pre (.elem tag attrs stay kids)))) st o st' ↔
+      IOk (.flat (compileNode (.elem tag attrs (pre ++ stay) kids))) st o st' := by
+  -- left side: nested SUBs around the compiled element
+  have hL : ∀ p : List Dir, (∀ d ∈ p, d.ctl = true) → ∀ (ds : List Dir) (b : List CEv) (inner : TNode),
+      compileNode inner = mkSub ds b →
+      ∀ s q s', IOk (.flat (compileNode (nestNodes p inner))) s q s' ↔ IOk (.apply (p ++ ds) b) s q s' := by
+    intro p
+    induction p with
+    | nil => intro _ ds b inner hin s q s'; simp only [nestNodes, hin, List.nil_append]; exact IOk.mkSub_iff
+    | cons d p ih =>
+      intro hp ds b inner hin s q s'
+      rw [compile_nest_cons d (hp d (List.mem_cons_self ..)), IOk.flat_single_iff, IOk.ev_sub_iff]
+      simp only [List.cons_append]
+      refine (apply_cons_congr d (hp d (List.mem_cons_self ..)) ?_) s q s'
+      intro s2 q2 s2'
+      rw [IOk.apply_nil_iff]
+      exact ih (fun x hx => hp x (List.mem_cons_of_mem _ hx)) ds b inner hin s2 q2 s2'
+  let body : List CEv := .start tag attrs :: (compileNodes kids ++ [.end_ tag])
+  have hinner : compileNode (.elem tag attrs stay kids) = mkSub (attach stay body).1 (attach stay body).2 := by
+    simp only [compileNode, sortBy_implIdx_of_sorted stay hs.suffix, body]
+  rw [hL pre hpre _ _ _ hinner]
+  simp only [compileNode, sortBy_implIdx_of_sorted _ hs, attach_ctl_prefix pre hpre stay]
+  exact IOk.mkSub_iff.symm
+
+/-
+  Full statement (kept visible): with any further directives on the element.
+  Proved with control directives (when/otherwise/for/if/choose/with) before it; excluded:
+  `py:def` (state equivalence up to macro behaviour, as above) and `py:attrs` on the same
+  element (content+strip evaluates its expression, replace does not: the outputs agree
+  whenever that evaluation succeeds — exercised by the oracle, not proved).
+-/
+/-- `py:replace` = `py:content` + `py:strip`. -/
+theorem replace_eq_content_strip_partial (pre : List Dir) (x : XExpr) (tag : Name)
+    (attrs : List (Name × Str)) (kids : List TNode) (hpre : ∀ d ∈ pre, d.ctl = true)
+    (hs1 : StrictSorted (pre ++ [.replace x])) (hs2 : StrictSorted (pre ++ [.content x, .strip none]))
+    (st st' : St) (o : List Event) :
+    IOk (.flat (compileNode (.elem tag attrs (pre ++ [.replace x]) kids))) st o st' ↔
+      IOk (.flat (compileNode (.elem tag attrs (pre ++ [.content x, .strip none]) kids))) st o st' := by
+  simp only [compileNode, sortBy_implIdx_of_sorted _ hs1, sortBy_implIdx_of_sorted _ hs2,
+    attach_ctl_prefix pre hpre, attach, getLast_body, IOk.mkSub_iff]
+  exact apply_prefix_congr pre hpre (replace_tail_eq x tag attrs) st o st'
+
 /-! ### non-vacuity -/
 
 private def c (s : String) : List Char := s.toList
@@ -160,5 +301,27 @@ example : implRender 100 ex1 ex1data =
 
 example : docRender 100 ex1 ex1data = implRender 100 ex1 ex1data := by rfl
 example : wfNodes ex1 = true := by decide
+
+/-- the hypotheses of the equivalence theorems are satisfiable on non-trivial inputs -/
+private def exPre : List Dir := [.for_ ['x'] (.var ['x', 's']), .if_ (.var ['x']), .with_ [(['y'], .var ['x'])]]
+
+example : (∀ d ∈ exPre, d.ctl = true) ∧ StrictSorted (exPre ++ [.attrs (.var ['w']), .strip none]) ∧
+    StrictSorted (exPre ++ [.replace (.pure (.var ['y']))]) ∧
+    StrictSorted (exPre ++ [.content (.pure (.var ['y'])), .strip none]) := by
+  refine ⟨by decide, ?_, ?_, ?_⟩ <;> simp [StrictSorted, exPre, Dir.rank]
+
+/-- `py:choose` with two `py:when`: the first does not match, the second does -/
+private def exSt : St := ⟨[], [(['x'], .atom (.int 2))], [⟨false, true, .atom (.int 2)⟩], []⟩
+
+example : whenMatches exSt.look ⟨false, true, .atom (.int 2)⟩ (some (.lit (.atom (.int 1)))) = .ok false ∧
+    whenMatches exSt.look ⟨false, true, .atom (.int 2)⟩ (some (.var ['x'])) = .ok true := by
+  constructor <;> rfl
+
+example : IOk (.apply (.if_ (.lit (.atom (.int 0))) :: exPre) [.text ['t']]) exSt [] exSt :=
+  if_false_removes _ _ _ _ (.atom (.int 0)) rfl rfl
+
+/-- the documentation semantics is defined (does not fail) on the running example, so
+    `impl_eq_doc_partial` applies to it -/
+example : ∃ o, docRender 100 ex1 ex1data = .ok o := ⟨_, rfl⟩
 
 end Genshi.Props.C04
